@@ -67,7 +67,7 @@ theorem reads_blank_aux (cfg : Cfg) (opts : Opts) (d : Nat) (a : Val) (tr s : By
     omega
 
 /-- a successfully read form is not empty -/
-theorem Reads.consumes {cfg : Cfg} {opts : Opts} {d : Nat} {a : Val} {s : Bytes} (h : Reads cfg opts d a s) :
+theorem reads_consumes {cfg : Cfg} {opts : Opts} {d : Nat} {a : Val} {s : Bytes} (h : Reads cfg opts d a s) :
     0 < s.length := by
   obtain ⟨v, hv, -⟩ := h false [] [] (2 * (s.length + 0) + 2) (Or.inl rfl) (Nat.le_refl _)
   have := (reader_progress { cfg := cfg, opts := opts } (2 * (s.length + 0) + 2)).1 d false
